@@ -121,6 +121,7 @@ func main() {
 	verbose := flag.Bool("v", false, "verbose")
 	timeout := flag.Int("timeout", 0, "solver timeout per query in ms (0 = tier default)")
 	maxSec := flag.Int("maxsec", 0, "wall-clock budget in seconds (0 = tier default)")
+	selftest := flag.Bool("selftest", false, "run the engine self-test (harness T00: a seeded violation must be found, replayed natively and matched to its known-finding region)")
 	flag.Usage = func() {
 		fmt.Fprintf(os.Stderr, "usage: vcheck [flags] <property-id>\n")
 		flag.PrintDefaults()
@@ -138,6 +139,9 @@ func main() {
 	}
 	if *replay != "" {
 		os.Exit(replayFile(*replay))
+	}
+	if *selftest {
+		id = "T00"
 	}
 	if id == "" {
 		flag.Usage()
@@ -169,6 +173,21 @@ func buildOverlay(hs []harnessFile) (map[string][]byte, map[string]string, error
 	rtDst := filepath.Join(repoDir, "internal", "verifrt", "verifrt.go")
 	ov[rtDst] = rt
 	files[rtDst] = filepath.Join(verifDir, "rt", "verifrt", "verifrt.go")
+	libDir := filepath.Join(verifDir, "harness", "lib")
+	if ents, err := os.ReadDir(libDir); err == nil {
+		for _, e := range ents {
+			if strings.HasSuffix(e.Name(), ".go") {
+				src := filepath.Join(libDir, e.Name())
+				b, err := os.ReadFile(src)
+				if err != nil {
+					return nil, nil, err
+				}
+				dst := filepath.Join(repoDir, "internal", "verifh", e.Name())
+				ov[dst] = b
+				files[dst] = src
+			}
+		}
+	}
 	for _, h := range hs {
 		b, err := os.ReadFile(h.src)
 		if err != nil {
